@@ -328,3 +328,33 @@ def solo_replay(tid: int, cfg: dict, side: str, ins: list) -> dict:
         return w.trace(tid, "src" if side == "S" else "dst", sched=ins)
     finally:
         w.cleanup()
+
+
+def shared_provider(tid: int, seed: int) -> dict:
+    """Two SourceHandlers of one entity sharing one sequence-number provider, transactions started alternately (C19: no two
+    transactions share a transaction id).  Recorded as ONE source-side trace (the second handler's events are appended with
+    the same projection), so the C19 monitor sees the 'transaction' indications of both in global order."""
+    from world import SeqProv
+    rng = random.Random(seed)
+    qw = rng.choice([1, 2])
+    cfg = mkcfg(mode=rng.choice(["ACK", "UNACK"]), seqW=qw, seq0=rng.choice([0, 250, 255]), file=[1, 2, 3], segLen=2)
+    prov = SeqProv(qw * 8, cfg["seq0"])
+    wa = World(cfg, seqprov=prov)
+    wb = World(cfg, seqprov=prov)
+    ev = []
+    for _ in range(rng.randint(3, 8)):
+        w = rng.choice([wa, wb])
+        if w.src.state.name == "IDLE":
+            w.call("S", "put", w.put_request())
+            ev.append(w.ev[-1])
+        for _ in range(rng.randint(1, 3)):
+            w.call("S", "fsm", None)
+            ev.append(w.ev[-1])
+        if rng.random() < 0.5 and w.src.state.name == "BUSY":
+            w.call("S", "reset")
+            ev.append(w.ev[-1])
+    tr = wa.trace(tid, "multi")
+    tr["ev"] = ev
+    wa.cleanup()
+    wb.cleanup()
+    return tr
